@@ -30,6 +30,6 @@ PROPS['C13'] = dict(
                  'an unsupported pair in a play*/generate* call is issued on the twins as well (identical history; the library advances one period before refusing)',
                  'determinism of identically driven instances in one process (C14) with constant-filled fresh heap memory'],
     stages=[
-        dict(name='formats', variant='asan', harness='c13_audio.cpp', quick=8000, thorough=80000, budget=30, opts=dict(units=200000)),
+        dict(name='formats', variant='asan', harness='c13_audio.cpp', quick=6000, thorough=80000, budget=30, opts=dict(units=200000)),
     ],
 )
